@@ -40,7 +40,7 @@ type World struct {
 	Lists int
 	Gets  int
 
-	// ServiceReadFault, when set, is consulted before every Get of a Service (kind "get") and List of Services (kind "list"):
+	// ServiceReadFault, when set, is consulted before every Get of a Service (kind "get"), List of Services (kind "list") and List of EndpointSlices (kind "slices"):
 	// a non-nil error is returned to the caller (an API server / cache read failing).
 	ServiceReadFault func(kind string) error
 }
@@ -176,6 +176,11 @@ func (w *World) List(ctx context.Context, list client.ObjectList, opts ...client
 			}
 		}
 	case *discovery.EndpointSliceList:
+		if w.ServiceReadFault != nil {
+			if err := w.ServiceReadFault("slices"); err != nil {
+				return err
+			}
+		}
 		l.Items = nil
 		want, has := "", false
 		if lo.FieldSelector != nil {
